@@ -18,8 +18,19 @@ judged inside Coq by Model/COMCheck.check_case:
 Python side: the two engines' rows are compared directly (all columns, ecc
 included, NaN pattern exactly), shapes / column names of refine_com, caller's
 arrays unchanged.
+
+Tie (route T, numba kernels): tools/py2coq_com.py re-translates the CURRENT source
+of _numba_refine_2D / _2D_c / _2D_c_a / _3D into coq/Gen/com_kernels.v on every
+run; the cone of Properties/C07.v (Proofs/COMGen.v: each generated kernel equals
+the kernel model) is rebuilt against it.  A translation error, a generated file
+that does not compile or a proof that no longer closes is reported through
+chk.proof_broken; in addition every generated case is run through the generated
+kernels by vm_compute (Model/COMGenCheck.check_generated: dispatch and argument
+preparation of refine_com_arr, then the kernel) and the row must be cell for cell
+the row of the kernel model (codes 10xx) -- that supplies the concrete failing
+input when a kernel was changed.
 """
-import json
+import os, sys, json, hashlib
 import numpy as np
 from fractions import Fraction
 import common
@@ -27,6 +38,69 @@ from common import cZ, cQ, clist, cbool
 
 IMPORTS = "From TP Require Import Model.COM Model.COMCheck."
 FUNC = "check_case"
+IMPORTS_GEN = "From TP Require Import Model.COM Model.COMCheck Model.COMGenCheck."
+FUNC_GEN = "check_case_gen"
+TRANSLATOR = os.path.join(common.VERIF, 'tools', 'py2coq_com.py')
+GEN = os.path.join(common.COQ, 'Gen', 'com_kernels.v')
+STATE = dict(gen_ok=False)
+GEN_CODES = {30: 'divides by zero where the kernel model returns a row', 31: 'returns a row where the kernel model divides by zero',
+             32: 'leaves a results array of the wrong shape'}
+
+
+def regenerate(chk):
+    """re-run the translator on the current source; returns (ok, text-or-log)"""
+    rc, out = common.sh([sys.executable, TRANSLATOR, '--repo', common.REPO, '--stdout'], timeout=60)
+    if rc != 0:
+        return False, out
+    with common.Lock(os.path.join(common.COQ, '.build.lock')):
+        old = open(GEN).read() if os.path.exists(GEN) else None
+        if old != out:
+            os.makedirs(os.path.dirname(GEN), exist_ok=True)
+            tmp = GEN + '.tmp%d' % os.getpid()
+            with open(tmp, 'w') as f:
+                f.write(out)
+            os.replace(tmp, GEN)
+            chk.tally('Gen/com_kernels.v rewritten (source differs from last run)')
+        else:
+            chk.tally('Gen/com_kernels.v unchanged')
+    return True, out
+
+
+def ensure_gencheck(chk):
+    """Model/COMGenCheck.vo (generated kernels, executable) is needed by the correspondence run even when
+    a proof of Proofs/COMGen.v is broken by a changed kernel"""
+    with common.Lock(os.path.join(common.COQ, '.build.lock')):
+        rc, out = common.sh('timeout 600 make Model/COMGenCheck.vo 2>&1 | tail -40', timeout=630, cwd=common.COQ)
+        vo = os.path.join(common.COQ, 'Model', 'COMGenCheck.vo')
+        fresh = os.path.exists(vo) and all(os.path.getmtime(vo) >= os.path.getmtime(os.path.join(common.COQ, f))
+                                           for f in ('Model/COMGenCheck.v', 'Gen/com_kernels.v', 'Model/PyKernel.v'))
+        if not fresh:
+            chk.proof_broken('Gen/com_kernels.v / Model/COMGenCheck.v (generated kernels do not build)', out)
+            return False
+    return True
+
+
+def build(chk):
+    """translator -> cone of Properties/C07.v -> executable comparison file.  STATE['gen_ok'] tells the
+    correspondence run whether the generated kernels can be executed."""
+    STATE['gen_ok'] = False
+    ok, text = regenerate(chk)
+    if not ok:
+        chk.proof_broken('translation tools/py2coq_com.py (a numba kernel left the translatable subset)', text)
+        # the rest of the cone does not depend on the generated file being current: still build what builds
+        chk.build = dict(obligations=0, discharged=0, assumptions=[], files=[], theorems=[])
+        return False
+    for attempt in range(3):
+        b = chk.coq()
+        cur = open(GEN).read()
+        if cur == text:
+            break
+        # another run (different TRACKPY_REPO) rewrote the generated file in between: redo
+        chk.violations = [v for v in chk.violations if not v[0].startswith('proof:')]
+        regenerate(chk)
+    chk.notes.append('Gen/com_kernels.v sha1 %s generated from %s' % (hashlib.sha1(text.encode()).hexdigest()[:12], common.REPO))
+    STATE['gen_ok'] = ensure_gencheck(chk) and open(GEN).read() == text
+    return bool(b['ok'])
 COLS = {1: 'position', 2: 'mass', 3: 'size', 4: 'signal', 5: 'raw_mass'}
 SENT = Fraction(10 ** 15 + 7)
 
@@ -34,6 +108,14 @@ SENT = Fraction(10 ** 15 + 7)
 def code_text(r):
     if r == 0:
         return 'ok'
+    if r >= 1000:
+        g = r - 1000
+        if g == 97:
+            return 'malformed case (harness)'
+        if g >= 40:
+            return ('generated numba kernel (translated from the current source): results column %d differs from the kernel model '
+                    '(contradicts C07_generated_*)' % (g - 40))
+        return 'generated numba kernel (translated from the current source) %s' % GEN_CODES.get(g, 'code %d' % g)
     if r == 20:
         return 'the reference model and the kernel model disagree (contradicts C07_engines_agree)'
     if r == 97:
@@ -329,7 +411,10 @@ def evaluate(chk, calls, tag='cases'):
         for i, s in enumerate(starts):
             terms.append(case_term(c, s, a[i], b[i]))
             meta.append((c, i))
-    res = common.coq_eval_lists(chk.work, IMPORTS, FUNC, terms, shard=60, tag=tag)
+    if STATE['gen_ok']:
+        res = common.coq_eval_lists(chk.work, IMPORTS_GEN, FUNC_GEN, terms, shard=60, tag=tag)
+    else:
+        res = common.coq_eval_lists(chk.work, IMPORTS, FUNC, terms, shard=60, tag=tag)
     for (c, i), r in zip(meta, res):
         c['_rows'].append(r)
     for c in calls:
@@ -343,7 +428,12 @@ def evaluate(chk, calls, tag='cases'):
                                  'degenerate threshold margin (skipped)' if r == 99 else 'flagged'))
         chk.count(('call', jsonable(c)), nontrivial)
         for i, r in enumerate(rows):
-            if r not in (0, 98, 99):
+            if r >= 1000 and r != 1097:
+                chk.violation('numba kernel source:%s' % code_text(r).split(' (contradicts')[0],
+                              'ndim=%d radius=%s start=%s max_iterations=%s characterize=%s: %s' % (
+                                  c['ndim'], c['radius'], c['starts'][i], c['max_iterations'], c['characterize'], code_text(r)),
+                              dict(kind='row', code=r, row=i, case=jsonable(c)))
+            elif r not in (0, 98, 99):
                 chk.violation('refine_com_arr:%s' % code_text(r).split(' (')[0],
                               'ndim=%d radius=%s start=%s max_iterations=%s characterize=%s: %s' % (
                                   c['ndim'], c['radius'], c['starts'][i], c['max_iterations'], c['characterize'], code_text(r)),
@@ -448,7 +538,8 @@ def large_eval(chk, img, radius, start, ch, iters):
 
 def run(chk):
     common.quiet_trackpy()
-    chk.coq()
+    build(chk)
+    chk.tally('generated kernels executed next to the kernel model' if STATE['gen_ok'] else 'generated kernels NOT executable (see proof-broken report)')
     n = 600 if chk.tier == "quick" else 5000
     calls = corpus() + [gen_call(chk.rng, chk.tier) for _ in range(n)]
     evaluate(chk, calls)
@@ -467,7 +558,9 @@ def run(chk):
                             "distinct by content hash")
     chk.assumptions += [
         "numba is absent: engine='numba' executes the kernels interpreted; compiled execution is not covered",
-        "the four numba kernels are modelled by one kernel generic in the axis list; that each of the four is this kernel is tied by the correspondence run only",
+        "the four numba kernels are translated from the current source by tools/py2coq_com.py (trusted, fail-closed; subset and conventions in its docstring: exact rationals for floats, guarded division, "
+        "total array reads returning 0 outside the array, UnboundLocalError not modelled, ecc sliced out) into Gen/com_kernels.v; Proofs/COMGen.v proves the generated kernels equal to the generic kernel model "
+        "(see Properties/C07.v for which kernels are closed by proof), and every generated case also runs the generated kernels by vm_compute against the kernel model",
         "float arithmetic: positions and sizes compared within 2^-40 relative; break/shift decisions closer than 2^-40 to shift_thresh are counted as degenerate and skipped",
         "images are integers or dyadic rationals (sums exact in float64); general float images are covered only up to rounding by the direct engine comparison",
         "ecc (cos/sin masks) is compared between the engines but not against a model",
@@ -476,7 +569,7 @@ def run(chk):
 
 def replay(chk, path):
     common.quiet_trackpy()
-    chk.coq()
+    build(chk)
     r = json.load(open(path))['replay']
     if r.get('kind') == 'large':
         img = np.array(r['image'], dtype=np.uint16)
